@@ -51,7 +51,16 @@ pub fn oracle(program: &[u8], refs: &[Vec<u8>], flags: u32) -> Option<Oracle> {
     let prog = node_from_bytes_backrefs(&mut a, program).ok()?;
     let prog_plain = node_to_bytes_limit(&a, prog, oracle_limit()).ok()?;
     // generator run with the ROM's arguments (deserializer (refs…)): also what the native path passes unless SIMPLE_GENERATOR
-    let full_args = setup_generator_args(&mut a, refs.iter(), f & !ConsensusFlags::SIMPLE_GENERATOR).ok()?;
+    // built here, independently of `setup_generator_args`: (DESERIALIZER_MOD (ref0 ref1 ...)), references in the
+    // order given
+    let full_args = {
+        let deser = node_from_bytes(&mut a, &chia_puzzles::CHIALISP_DESERIALISATION).ok()?;
+        let mut blocks = a.nil();
+        for g in refs.iter().rev() { let r = a.new_atom(g).ok()?; blocks = a.new_pair(r, blocks).ok()?; }
+        let nil = a.nil();
+        let tail = a.new_pair(blocks, nil).ok()?;
+        a.new_pair(deser, tail).ok()?
+    };
     let mut gen_rom = None; let mut puz = vec![];
     let mut out_node = None;
     if let Ok(Reduction(c, out)) = run_program(&mut a, &dialect, prog, full_args, BIG) {
@@ -223,6 +232,27 @@ pub fn run_c07(o: &mut Out, seed: u64, thorough: bool, replay: Option<Vec<String
                     for flags in [F_DONT_VALIDATE, F_DONT_VALIDATE | F_COST | F_LIMIT] { c07_case(o, &bytes, &[], flags, 11_000_000_000); }
                 }}}
             }
+        }
+    }
+    // procedural generators that read the block references: spend i takes its parent id from reference i
+    // (path 5 = the reference list), so the ORDER of the references is observable in both paths
+    {
+        let spend_from = |path: T| -> T { // (c <path> (c (q . 1) (c (q . 1) (c (q . ()) ()))))
+            let q = |x: T| pair(at(&[1]), x);
+            let c = |x: T, y: T| list(vec![at(&[4]), x, y], nil());
+            c(path, c(q(at(&[1])), c(q(int(1)), c(q(nil()), nil())))) };
+        let c = |x: T, y: T| list(vec![at(&[4]), x, y], nil());
+        let f5 = list(vec![at(&[5]), at(&[5])], nil());                 // (f 5)
+        let fr5 = list(vec![at(&[5]), list(vec![at(&[6]), at(&[5])], nil())], nil()); // (f (r 5))
+        let two = c(c(spend_from(f5.clone()), c(spend_from(fr5), nil())), nil());
+        let one = c(c(spend_from(f5), nil()), nil());
+        let ra = vec![0xaau8; 32]; let rb = vec![0xbbu8; 32];
+        for flags in [F_DONT_VALIDATE, F_DONT_VALIDATE | F_COST | F_LIMIT] {
+            c07_case(o, &to_bytes(&two), &[ra.clone(), rb.clone()], flags, 11_000_000_000);
+            c07_case(o, &to_bytes(&two), &[rb.clone(), ra.clone()], flags, 11_000_000_000);
+            c07_case(o, &to_bytes(&two), &[ra.clone(), ra.clone()], flags, 11_000_000_000);   // double spend: both reject
+            c07_case(o, &to_bytes(&one), &[ra.clone(), rb.clone()], flags, 11_000_000_000);
+            c07_case(o, &to_bytes(&one), &[rb.clone()], flags, 11_000_000_000);
         }
     }
     let n = if thorough { 40_000 } else { 3_000 };
